@@ -7,10 +7,12 @@ if ! git diff --quiet; then echo "/repo working tree is dirty, refusing"; exit 2
 if ! git apply --check "$patch" 2>/dev/null; then echo "patch does not apply: $patch"; exit 2; fi
 git apply "$patch"
 trap 'git -C /repo checkout -- . ; git -C /repo clean -fdq -- py cpp >/dev/null 2>&1' EXIT INT TERM
+ev=$(mktemp -d /tmp/seed-evidence.XXXXXX)      # evidence of runs against a seeded tree is scratch
 for p in "$@"; do
-  out=$(cd /verif && ./check $p --tier $tier 2>/dev/null)
+  out=$(cd /verif && VERIF_EVIDENCE_DIR="$ev" ./check $p --tier $tier 2>/dev/null)
   rc=$?
   n=$(printf '%s\n' "$out" | grep -c '^VIOLATION')
   first=$(printf '%s\n' "$out" | grep -A1 '^VIOLATION' | sed -n 2p | cut -c1-220)
   echo "RESULT $p exit=$rc violations=$n $first"
 done
+rm -rf "$ev"
